@@ -596,6 +596,7 @@ func genSgrCases(c *ex.Ctx, fCell, fSS, fStyle, fVx, fSgr, fQuirks *ast.File, st
 			nm := sg[sl.at]
 			fmt.Fprintf(&sb, "def %s%s_t : Sequences.Template := Sequences.«%s_t»\n", p.name, sl.slot, nm)
 			fmt.Fprintf(&sb, "def %s%sMutable : Bool := %v\n", p.name, sl.slot, isVar[nm])
+			fmt.Fprintf(&sb, "def %s%s_s : String := Sequences.«%s»\n", p.name, sl.slot, nm)
 		}
 		sb.WriteString("\n")
 	}
